@@ -39,7 +39,7 @@ GAS = ["H", "H2", "H+", "C", "C+", "CH", "O", "OH", "CO", "H2O", "He", "He+", "H
 def budget(tier):
     if tier == "quick":
         return dict(examples=7, shards=16, shrink_calls=25)
-    return dict(examples=120, shards=16, shrink_calls=300)
+    return dict(examples=40, shards=16, shrink_calls=300)
 
 
 # ------------------------------------------------------------------------------------ descriptions
